@@ -242,9 +242,14 @@ impl EnabledHandler {
         }
 
         // determine if we need to create the outbound stream
-        if !self.message_queue.is_empty()
-            && self.outbound_substream.is_none()
+        //
+        // As long as there is no outbound stream the queue is not polled below, so register for a
+        // wake-up here: otherwise a message pushed later (e.g. to the second connection of a peer
+        // after its first connection closed) would sit in the queue until the handler happens to
+        // be polled for another reason.
+        if self.outbound_substream.is_none()
             && !self.outbound_substream_establishing
+            && !self.message_queue.poll_is_empty(cx)
         {
             self.outbound_substream_establishing = true;
             return Poll::Ready(ConnectionHandlerEvent::OutboundSubstreamRequest {
